@@ -45,6 +45,7 @@ type E2Params struct {
 	Types      []string `json:"types"`       // per-client datatype type (client i uses Types[i % len]); default: Type for all
 	SyncFaults []string `json:"sync_faults"` // transport faults offered on SDK Sync(): drop | dup (bounded by max_faults)
 	Foreign    bool     `json:"foreign"`     // offer foreign requests and ResetCollection (C17)
+	Tolerant   bool     `json:"tolerant"`    // request errors are outcomes, not violations (fault enumeration)
 }
 
 type e2dt struct {
@@ -490,7 +491,7 @@ func (m *e2Machine) Apply(a pt.Action) (v *pt.Violation) {
 		}
 		m.drain()
 		m.last = fmt.Sprintf("sync err=%v", err != nil)
-		if err != nil && a.K != "drop" {
+		if err != nil && a.K != "drop" && !m.p.Tolerant {
 			return viol("E2:sync-error", "client %d Sync() returned %v", a.R, err)
 		}
 	default:
@@ -527,6 +528,11 @@ func (m *e2Machine) Apply(a pt.Action) (v *pt.Violation) {
 	}
 	if m.oracles["notify"] {
 		if v := m.checkNotify(a, pubsBefore, opsBefore); v != nil {
+			return v
+		}
+	}
+	if m.oracles["snapshots"] {
+		if v := m.checkSnapshots(); v != nil {
 			return v
 		}
 	}
@@ -667,6 +673,17 @@ func (m *e2Machine) checkLog() *pt.Violation {
 	for _, duid := range duids {
 		dt := store[duid]
 		if dt.key == "?orphan" {
+			inUse := false
+			for _, c := range m.cls {
+				for _, d := range c.dts {
+					if d.rep.dt.GetDUID() == duid && d.rep.dt.GetState() == model.StateOfDatatype_SUBSCRIBED {
+						inUse = true
+					}
+				}
+			}
+			if m.p.Tolerant && !inUse {
+				continue // litter of a creation that failed before its commit point and was never retried under this id
+			}
 			return viol("C06:operations-without-datatype", "operations stored for %s but no datatype document", duid)
 		}
 		perClient := map[string]uint64{}
@@ -1047,9 +1064,12 @@ func (m *e2Machine) checkEntries(c *e2client, preds []entryPred, dumpBefore stri
 		// a new subscriber's first state = the datatype's state at the log position it subscribed at
 		if !p.creates {
 			pack := d.rep.dt.CreatePushPullPack()
-			ops, _, err := m.sys.Repo.GetOperations(m.sys.Ctx, d.rep.dt.GetDUID(), 1, pack.CheckPoint.Sseq)
+			ops, _, err := m.sys.Repo.GetOperations(m.sys.Ctx, d.rep.dt.GetDUID(), 1, ^uint64(0))
 			if err != nil {
 				return viol("E2:harness:read-log", "%v", err)
+			}
+			if uint64(len(ops)) > pack.CheckPoint.Sseq {
+				ops = ops[:pack.CheckPoint.Sseq]
 			}
 			w := &World{P: WParams{Type: c.typ}, typ: typeOf(c.typ), log: ops}
 			sc, serr := w.ServerCopy(len(ops))
@@ -1176,6 +1196,164 @@ func (m *e2Machine) foreignRequest(c *e2client, a pt.Action) *pt.Violation {
 	}
 	if a.K == "collection" && err == nil {
 		return viol("C17:foreign-collection-accepted", "%s: a request naming collection %q by a client registered in %q was not refused", a, other, c.coll)
+	}
+	return nil
+}
+
+// ---------------------------------------------------------------------------------------------
+// C11: stored snapshots and the user-visible document equal the log replay
+// ---------------------------------------------------------------------------------------------
+
+// replayReplica applies log[1..v] of a datatype to a fresh local replica (the reference for snapshots).
+func (m *e2Machine) replayReplica(typ string, duid string, v uint64) (*Replica, error) {
+	ops, _, err := m.sys.Repo.GetOperations(m.sys.Ctx, duid, 1, ^uint64(0))
+	if err != nil {
+		return nil, err
+	}
+	if uint64(len(ops)) > v { // (the repository's upper bound is not applied by its filter; cut here)
+		ops = ops[:v]
+	}
+	if uint64(len(ops)) != v {
+		return nil, fmt.Errorf("log of %s has %d operations up to position %d", duid, len(ops), v)
+	}
+	w := &World{P: WParams{Type: typ}, typ: typeOf(typ), log: ops}
+	return w.ServerCopy(len(ops))
+}
+
+func typeName(t string) string {
+	switch t {
+	case "COUNTER":
+		return "counter"
+	case "MAP":
+		return "map"
+	case "LIST":
+		return "list"
+	}
+	return "doc"
+}
+
+// normJSON renders a BSON/JSON value with all numbers as float64 and keys sorted.
+func normJSON(v interface{}) string {
+	var norm func(v interface{}) interface{}
+	norm = func(v interface{}) interface{} {
+		switch x := v.(type) {
+		case bson.D:
+			mm := map[string]interface{}{}
+			for _, e := range x {
+				mm[e.Key] = norm(e.Value)
+			}
+			return mm
+		case bson.A:
+			out := make([]interface{}, 0, len(x))
+			for _, e := range x {
+				out = append(out, norm(e))
+			}
+			return out
+		case map[string]interface{}:
+			mm := map[string]interface{}{}
+			for k, e := range x {
+				mm[k] = norm(e)
+			}
+			return mm
+		case []interface{}:
+			out := make([]interface{}, 0, len(x))
+			for _, e := range x {
+				out = append(out, norm(e))
+			}
+			return out
+		case int32:
+			return float64(x)
+		case int64:
+			return float64(x)
+		case int:
+			return float64(x)
+		}
+		return v
+	}
+	return jsonStr(norm(v))
+}
+
+// checkSnapshots: every stored snapshot (duid, v) equals replay(log[1..v]); the user document of a
+// key is the JSON view of replay(log[1.._orda_ver_]); lastVer tracks that versions never decrease.
+func (m *e2Machine) checkSnapshots() *pt.Violation {
+	store := m.readStore()
+	for _, sd := range m.sys.DB.Docs(schema.CollectionNameSnapshot) {
+		duid, _ := getS(sd, "duid")
+		v := asU64(getV(sd, "sseq"))
+		dt := store[duid]
+		if dt == nil {
+			return viol("C11:snapshot-without-datatype", "snapshot %s:%d has no datatype document", duid, v)
+		}
+		typ := typeName(dt.typ)
+		meta, _ := getS(sd, "meta")
+		var snap []byte
+		if b, ok := getV(sd, "snapshot").(primitive.Binary); ok {
+			snap = b.Data
+		}
+		if v > uint64(len(dt.ops)) {
+			return viol("C11:snapshot-beyond-log", "snapshot %s:%d but the log has %d operations", dt.key, v, len(dt.ops))
+		}
+		want, err := m.replayReplica(typ, duid, v)
+		if err != nil {
+			return viol("C11:log-not-replayable", "%v", err)
+		}
+		fresh := newReplica(70, typeOf(typ), true, 0)
+		var perr interface{}
+		var ierr error
+		func() {
+			defer func() { perr = recover() }()
+			if e := fresh.dt.SetMetaAndSnapshot([]byte(meta), snap); e != nil {
+				ierr = e
+			}
+		}()
+		if perr != nil || ierr != nil {
+			return viol("C11:snapshot-not-importable", "snapshot %s:%d cannot be imported: %v %v", dt.key, v, perr, ierr)
+		}
+		if a, b := fresh.View(), want.View(); a != b {
+			return viol("C11:snapshot-differs-from-log-prefix:"+typ+":"+diffClass(b, a), "stored snapshot of %s at version %d:\n snapshot: %s\n replay of log[1..%d]: %s", dt.key, v, a, v, b)
+		}
+	}
+	// user-visible documents
+	for _, cd := range m.sys.DB.Docs(schema.CollectionNameCollections) {
+		coll, _ := getS(cd, "_id")
+		num, _ := getV(cd, "num").(int32)
+		for _, ud := range m.sys.DB.Docs(coll) {
+			key, _ := getS(ud, "_id")
+			ver := asU64(getV(ud, "_orda_ver_"))
+			var dt *storedDT
+			for _, s := range store {
+				if s.key == key && s.colNum == num {
+					dt = s
+				}
+			}
+			if dt == nil {
+				return viol("C11:user-document-without-datatype", "user document %s/%s has no datatype", coll, key)
+			}
+			if ver > uint64(len(dt.ops)) {
+				return viol("C11:user-document-version-beyond-log", "user document %s/%s records version %d, the log has %d operations", coll, key, ver, len(dt.ops))
+			}
+			typ := typeName(dt.typ)
+			want, err := m.replayReplica(typ, dt.duid, ver)
+			if err != nil {
+				return viol("C11:log-not-replayable", "%v", err)
+			}
+			var body bson.D
+			for _, e := range ud {
+				if e.Key != "_id" && e.Key != "_orda_ver_" {
+					body = append(body, e)
+				}
+			}
+			// the document is bson.Marshal(datatype.ToJSON()); compare with the same marshalling of the replay
+			wb, merr := bson.Marshal(want.dt.ToJSON())
+			if merr != nil {
+				continue
+			}
+			var wd bson.D
+			bson.Unmarshal(wb, &wd)
+			if a, b := normJSON(body), normJSON(wd); a != b {
+				return viol("C11:user-document-differs-from-log-prefix:"+typ, "user document %s/%s at version %d is %s, the JSON view of log[1..%d] is %s", coll, key, ver, a, ver, b)
+			}
+		}
 	}
 	return nil
 }
